@@ -1222,6 +1222,76 @@ static void build(vf::Plan &plan, const vf::Opts &o)
                },
                [](uint64_t i) { return strf("path text #%u, field #%u", (unsigned)(i % 7), (unsigned)(i / 7)); });
 
+    // argument references with two digits (twelve arguments)
+    plan.stage("argument references {&1} .. {&12} with twelve arguments, alone, combined and with options", 12 + 6,
+               [](uint64_t i, Ctx &c) {
+                   std::string f, want;
+                   if (i < 12) {
+                       f = "{&" + std::to_string(i + 1) + "}";
+                       want = std::to_string(101 + i);
+                   } else {
+                       static const char *const F[6] = {"{&1}{&12}", "{&10x}", "{&12>5}|", "{&9}{&10}", "[{&11<6}]", "{&10}{&1}{&10}"};
+                       static const char *const W[6] = {"101112", "6e", "  112|", "109110", "[111   ]", "110101110"};
+                       f = F[i - 12];
+                       want = W[i - 12];
+                   }
+                   std::string got;
+                   vf::Outcome oc = vf::guard([&] {
+                       ST::string r = ST::format(f.c_str(), 101, 102, 103, 104, 105, 106, 107, 108, 109, 110, 111, 112);
+                       got.assign(r.c_str(), r.size());
+                   });
+                   VF_COUNT("validated");
+                   if (!oc.ok()) c.fail(strf("argument-reference:unexpected-%s", out_slug(oc).c_str()), strf("format %s with twelve arguments -> %s", f.c_str(), oc.str().c_str()));
+                   else if (got != want) c.fail(strf("argument-reference:%s", diff_kind(want, got)), strf("format %s of 101..112 gives %s, expected %s", f.c_str(), vf::vis(got).c_str(), want.c_str()));
+                   c.nontrivial();
+               },
+               [](uint64_t i) { return strf("argument reference case %u", (unsigned)i); });
+    // a precision on text arguments of every width: the same bytes (or the same refusal) as for the UTF-8 text given as a std::string -
+    // the cut is made in the UTF-8 form, wherever a unit boundary of the argument's own encoding lies
+    plan.stage("precision 0..9 x 6 mixed-width texts x 13 wide / narrow text argument types: same result as the UTF-8 std::string argument", 10 * 6 * 13,
+               [](uint64_t i, Ctx &c) {
+                   static const char32_t *const TX[6] = {U"\u00e9\U0001F600", U"a\U0001F600b", U"\U0001F600\U0001F600", U"ab\u20ac\u00e9", U"\u20ac\U0001F600\u00e9z", U"plain"};
+                   unsigned pr = (unsigned)vf::take(i, 10), ti = (unsigned)vf::take(i, 6), ty = (unsigned)i;
+                   std::u32string t32 = TX[ti];
+                   ST::string ref = ST::string::from_utf32(t32.data(), t32.size());
+                   std::string u8(ref.c_str(), ref.size());
+                   std::wstring tw(t32.begin(), t32.end());
+                   ST::utf16_buffer b16 = ref.to_utf16();
+                   std::u16string t16(b16.data(), b16.size());
+                   std::string f = "[{." + std::to_string(pr) + "}]";
+                   auto run = [&](int which, std::string &out) {
+                       return vf::guard([&] {
+                           ST::string r;
+                           switch (which) {
+                           case -1: r = ST::format(f.c_str(), u8); break;
+                           case 0: r = ST::format(f.c_str(), u8.c_str()); break;
+                           case 1: r = ST::format(f.c_str(), std::string_view(u8)); break;
+                           case 2: r = ST::format(f.c_str(), ref); break;
+                           case 3: r = ST::format(f.c_str(), tw.c_str()); break;
+                           case 4: r = ST::format(f.c_str(), tw); break;
+                           case 5: r = ST::format(f.c_str(), std::wstring_view(tw)); break;
+                           case 6: r = ST::format(f.c_str(), t16.c_str()); break;
+                           case 7: r = ST::format(f.c_str(), t16); break;
+                           case 8: r = ST::format(f.c_str(), std::u16string_view(t16)); break;
+                           case 9: r = ST::format(f.c_str(), t32.c_str()); break;
+                           case 10: r = ST::format(f.c_str(), t32); break;
+                           case 11: r = ST::format(f.c_str(), std::u32string_view(t32)); break;
+                           default: r = ST::format(f.c_str(), ST::utf16_buffer(t16.data(), t16.size())); break;
+                           }
+                           out.assign(r.c_str(), r.size());
+                       });
+                   };
+                   std::string want, got;
+                   vf::Outcome ow = run(-1, want), og = run((int)ty, got);
+                   VF_COUNT("validated");
+                   if (ow.kind != og.kind || (ow.ok() && want != got))
+                       c.fail(strf("text-argument-precision:%s:differs-from-the-std::string-argument", TL_TYPE[ty < 3 ? (ty == 2 ? 3 : ty == 1 ? 2 : 0) : ty + 4 > 16 ? 16 : ty + 4]),
+                              strf("format %s of text #%u as argument type #%u: %s; as std::string: %s", f.c_str(), ti, ty, og.ok() ? vf::vis(got).c_str() : og.str().c_str(),
+                                   ow.ok() ? vf::vis(want).c_str() : ow.str().c_str()));
+                   if (pr > 0 && pr < u8.size()) c.nontrivial();
+               },
+               [](uint64_t i) { return strf("precision case %u", (unsigned)i); });
+
     plan.stage("a _stfmt formatter object called three times with different arguments (5 format strings)", 5,
                [](uint64_t i, Ctx &c) { run_formatter_reuse(c, i); }, [](uint64_t i) { return strf("format string #%u", (unsigned)i); });
 
